@@ -618,3 +618,197 @@ def h_sandboxes(g0, g1, g2, g3):
     check(norm(ts).rstrip('/') == '/scratch/radical.pilot.sandbox/sess.0/'
           'pilot.0000/task.x', 'task sandbox %s', ts)
     check(norm(ep) in ('', '/'), 'endpoint fs %s', ep)
+
+
+# ------------------------------------------------------------------------------
+# the local back end on a content-bearing in-memory file system: what ends up
+# at the named target is the content of the named source
+#
+class CFS(object):
+    """files: path -> [content, mtime]; dirs: set of paths (no trailing /)"""
+    def __init__(self):
+        self.files, self.dirs, self.clock = {}, {'/'}, 0
+    def tick(self):
+        self.clock += 1
+        return self.clock
+    def write(self, path, content, mtime=None):
+        self.files[path] = [content, self.tick() if mtime is None else mtime]
+    def mkdirs(self, p):
+        p = p.rstrip('/') or '/'
+        while p and p != '/':
+            self.dirs.add(p)
+            p = os.path.dirname(p)
+    def dest(self, src, tgt):
+        """where cp/mv put `src` when told `tgt`; None: cannot (POSIX)"""
+        if tgt.endswith('/') or tgt in self.dirs:
+            d = tgt.rstrip('/')
+            if d not in self.dirs: return None       # not a directory
+            return d + '/' + os.path.basename(src)
+        if os.path.dirname(tgt) not in self.dirs: return None
+        return tgt
+
+
+CP_NEUTRAL = set('rRpfadvT')        # flags without influence on file content
+
+
+class CfsRU(object):
+    def __init__(self, fs): self.fs = fs
+    def rec_makedir(self, p): self.fs.mkdirs(p)
+    def sh_callout(self, cmd, shell=False, **k):
+        parts = cmd.split()
+        if parts[0] != 'cp':
+            raise RuntimeError('harness: unmodelled command %r' % cmd)
+        flags = ''.join(p.lstrip('-') for p in parts[1:-2]
+                        if p.startswith('-') and not p.startswith('--'))
+        longs = [p for p in parts[1:-2] if p.startswith('--')]
+        for f in flags:
+            if f not in CP_NEUTRAL and f not in 'un':
+                raise RuntimeError('harness: unmodelled cp flag -%s' % f)
+        for f in longs:
+            if f not in ('--recursive', '--preserve', '--force', '--update',
+                         '--no-clobber', '--archive'):
+                raise RuntimeError('harness: unmodelled cp flag %s' % f)
+        update  = 'u' in flags or '--update' in longs
+        noclob  = 'n' in flags or '--no-clobber' in longs
+        src, tgt = parts[-2], parts[-1]
+        fs = self.fs
+        if src not in fs.files:
+            return '', 'cp: cannot stat %s' % src, 1
+        dst = fs.dest(src, tgt)
+        if dst is None:
+            return '', 'cp: cannot create %s' % tgt, 1
+        if dst in fs.files:
+            if noclob: return '', '', 0
+            if update and fs.files[dst][1] >= fs.files[src][1]:
+                return '', '', 0                 # silently skipped
+        fs.write(dst, fs.files[src][0])
+        return '', '', 0
+    def __getattr__(self, k): return getattr(ru, k)
+
+
+class CfsOS(object):
+    def __init__(self, fs): self.fs, self.path = fs, os.path
+    def link(self, src, tgt):
+        fs = self.fs
+        if src not in fs.files: raise FileNotFoundError(src)
+        if tgt.endswith('/') or tgt in fs.dirs or tgt in fs.files:
+            raise FileExistsError(tgt)
+        if os.path.dirname(tgt) not in fs.dirs: raise FileNotFoundError(tgt)
+        fs.files[tgt] = fs.files[src]            # same inode
+    def symlink(self, src, tgt): self.link(src, tgt)
+    def rmdir(self, p): pass
+    def unlink(self, p): self.fs.files.pop(p, None)
+    def __getattr__(self, k): return getattr(os, k)
+
+
+class CfsShutil(object):
+    def __init__(self, fs): self.fs = fs
+    def move(self, src, tgt):
+        fs = self.fs
+        if src not in fs.files: raise FileNotFoundError(src)
+        dst = fs.dest(src, tgt)
+        if dst is None: raise FileNotFoundError(tgt)
+        fs.files[dst] = fs.files.pop(src)
+        return dst
+
+
+TGT_FORMS = ['task:///out.dat', 'task:///inputs/', 'inputs/', 'task:///a/b.dat',
+             'pilot:///collected/', 'pilot:///shared.cfg']
+
+
+@obligation(params={'act': (0, 2), 'tf': (0, 5), 'two': 'bool', 'older': 'bool',
+                    'pre': 'bool', 'side': (0, 1)},
+            timeout={'quick': 300, 'thorough': 600},
+            partition={'quick': ('tf', 6), 'thorough': ('tf', 6)},
+            funcs=['radical/pilot/utils/staging_helper.py:'
+                   'StagingHelper_Local.' + n for n in
+                   ('copy', 'move', 'link', 'mkdir')] +
+                  ['radical/pilot/staging_directives.py:complete_url',
+                   'radical/pilot/agent/staging_input/default.py:'
+                   'Default._handle_task_staging',
+                   'radical/pilot/agent/staging_output/default.py:'
+                   'Default._handle_task_staging'],
+            bounds='COPY / LINK / MOVE through the agent stage-in or stage-out '
+                   'component and the local back end; target: file, file in a '
+                   'new directory, or a directory named with a trailing slash '
+                   '(task / pilot sandbox, relative); one or two directives '
+                   '(of two tasks) to the same target from different sources, '
+                   'the second source older or newer than what the first '
+                   'staging wrote; target directory existing before or not',
+            stubs=['cp (documented semantics of -r -p -f -a -u -n; other flags '
+                   'are a harness error) / os.link / shutil.move / rec_makedir '
+                   '-> in-memory file system with contents and mtimes'])
+def h_local_content(act, tf, two, older, pre, side):
+    """after staging the target holds the content of the named source"""
+    act, tf, side = conc(act, 0, 2), conc(tf, 0, 5), conc(side, 0, 1)
+    action = [rpc.COPY, rpc.LINK, rpc.MOVE][act]
+    fs = CFS()
+    m_sh.os, m_sh.shutil, m_sh.ru = CfsOS(fs), CfsShutil(fs), CfsRU(fs)
+    be = object.__new__(m_sh.StagingHelper_Local)
+    be._log = Null()
+    rec = []
+    _install_fakes(rec)
+    cls  = m_asi.Default if side == 0 else m_aso.Default
+    comp = mk_comp(cls, be, rec)
+    tform = TGT_FORMS[tf]
+    tasks = ['t0', 't1'] if two else ['t0']
+    # sources: the second one is written before (older) or after (newer) the
+    # first staging operation has produced its target
+    srcs = {u: '%s/data_%s.dat' % (SBOX['pilot'], u) for u in tasks}
+    fs.mkdirs(SBOX['pilot'])
+    for u in tasks:
+        fs.mkdirs(SBOX['task'].replace('t0', u))
+    if pre and tform.endswith('/'):
+        for u in tasks:
+            fs.mkdirs(resolved_dir(tform, u))
+    fs.write(srcs['t0'], 'content of t0')
+    if two and older:
+        fs.write(srcs['t1'], 'content of t1')
+    outcome = {}
+    for u in tasks:
+        if u == 't1' and not older:
+            fs.write(srcs['t1'], 'content of t1')
+        sd = m_sd.expand_staging_directives(
+             [{'source': 'pilot:///data_%s.dat' % u, 'target': tform,
+               'action': action}])
+        if side == 0: t = mk_task(u, sd, [])
+        else:         t = mk_task(u, [], sd)
+        n0 = len(comp.advanced)
+        real(comp._work if side == 0 else comp.work, [t])
+        sts = [s for uu, s, p in comp.advanced[n0:] if uu == u]
+        outcome[u] = rps.FAILED not in sts and \
+                     not (side == 1 and t.get('target_state') == rps.FAILED)
+    reach()
+    trace('target', tform, 'action', action, 'outcome', outcome, 'files',
+          {k: v[0] for k, v in fs.files.items()}, 'dirs', sorted(fs.dirs))
+    last = None
+    for u in tasks:
+        if not outcome[u]:
+            # a refused operation (e.g. hard link onto an existing name) is a
+            # reported failure, nothing silent
+            check(action == rpc.LINK and (u == 't1' or tform.endswith('/')),
+                  '%s of %s to %s failed the task', action, srcs[u], tform)
+            continue
+        want = expected_path(tform, u, srcs[u])
+        got  = fs.files.get(want)
+        check(got is not None, '%s %s -> %s passed staging but %s does not '
+              'exist (files: %s)', action, srcs[u], tform, want,
+              sorted(fs.files))
+        last = (want, u)
+        if tform.endswith('/') or not two or u == tasks[-1]:
+            check(got[0] == 'content of %s' % u, '%s %s -> %s passed staging '
+                  'but %s holds %r', action, srcs[u], tform, want, got[0])
+
+
+def resolved_dir(tform, uid):
+    return expected_path(tform, uid, 'x').rsplit('/', 1)[0]
+
+
+def expected_path(tform, uid, src):
+    base = SBOX['task'].replace('t0', uid)
+    if tform.startswith('task:///'):    p = base + '/' + tform[8:]
+    elif tform.startswith('pilot:///'): p = SBOX['pilot'] + '/' + tform[9:]
+    else:                               p = base + '/' + tform
+    if p.endswith('/'):
+        p += os.path.basename(src)
+    return p
